@@ -256,6 +256,14 @@ def require_guard(ctx, body, oid, rule, pred, desc, start=None, extra_barriers=(
                    key='%s|%s|%s|bypass' % (rule, oid, fn))
             return ms
     elif not allow_bypass:
+        if extra_barriers or bypass_edges:
+            # vacuity test: the permitted side conditions alone must not already cut off every non-failing exit
+            ok0, _ = body.ok_reachable(avoid_blocks=list(extra_barriers), start=start or (0, 0), avoid_edges=list(bypass_edges))
+            if not ok0:
+                ctx.ob(oid, rule, False, fn, where, 'rule instance is vacuous: the side conditions of "%s" alone make every '
+                       'non-failing exit unreachable, so the must-pass-through test decides nothing' % desc,
+                       key='%s|%s|%s|vacuous' % (rule, oid, fn))
+                return ms
         okr, kinds = body.ok_reachable(avoid_blocks=[g['block'] for g in ms] + list(extra_barriers), start=start or (0, 0),
                                        avoid_edges=list(bypass_edges))
         if okr:
